@@ -282,7 +282,9 @@ class MatchesPredicate(Matcher):
 
     def match(self, x):
         if not self.predicate(x):
-            return Mismatch(self.message % x)
+            # x may itself be a tuple (e.g. an exc_info): it is the one value
+            # the message formats, not a tuple of format arguments.
+            return Mismatch(self.message % (x,))
 
 
 def MatchesPredicateWithParams(predicate, message, name=None):
